@@ -782,6 +782,10 @@ class Translator:
     # ---- R2 qualified names, R4 real
     def rule_names(self, body):
         body, n = re.subn(r'\bMath::real\b', 'real', body)
+        body, ng = re.subn(r'\bGeographicLib::', '', body)
+        # R19b: a method called on a library singleton, Class::Instance().Method(args) -> Class::Method(args)
+        body, ns = re.subn(r'\b([A-Z]\w*)::(\w+)\s*\(\s*\)\s*\.\s*(\w+)\s*\(', r'\1::\3(', body)
+        self.report.hit('R19b.singleton_method_call', ns)
         body, nmm = re.subn(r'\(\s*(?:std::)?(min|max)\s*\)\s*\(', r'\1(', body)
         self.report.hit('R10.parenthesised_minmax', nmm)
         body, n0 = re.subn(r'\bstd::', '', body)
@@ -906,6 +910,49 @@ class Translator:
         if not throwers:
             return body
         pat = re.compile(r'(?<![\w.>])(' + '|'.join(sorted(map(re.escape, throwers), key=len, reverse=True)) + r')\s*\(')
+        # a may-throw call inside the condition of an `if`: hoist the condition into a temporary so that the
+        # propagation test can follow it (only when the `if` starts a statement)
+        nh = 0
+        while True:
+            hoisted = False
+            for m in pat.finditer(body):
+                # innermost unmatched '(' before the call
+                depth = 0
+                j = m.start() - 1
+                while j >= 0:
+                    c = body[j]
+                    if c == ')':
+                        depth += 1
+                    elif c == '(':
+                        if depth == 0:
+                            break
+                        depth -= 1
+                    elif c in ';{}' and depth == 0:
+                        j = -1
+                        break
+                    j -= 1
+                if j < 0:
+                    continue
+                pre = body[:j].rstrip()
+                if not pre.endswith('if'):
+                    if re.search(r'\b(for|while|switch)$', pre):
+                        raise ExtractError('may-throw call inside a for/while/switch header (not covered by R7)')
+                    continue
+                ifpos = len(pre) - 2
+                before = body[:ifpos].rstrip()
+                if before and before[-1] not in ';{}':
+                    raise ExtractError('may-throw call inside the condition of an if that does not start a statement (not covered by R7)')
+                close = match_close(body, j)
+                cond = body[j + 1:close]
+                nh += 1
+                tmp = 'verif_cond%d_' % nh
+                body = (body[:ifpos] + '_Bool %s = (%s); { VERIF_PROPAGATE(%s); } if (%s)' % (tmp, ' '.join(cond.split()), self._ret_default(ret_ctype), tmp)
+                        + '\n' * cond.count('\n') + body[close + 1:])
+                self.report.hit('R7.hoisted_condition')
+                hoisted = True
+                break
+            if not hoisted:
+                break
         inserts = []
         for m in pat.finditer(body):
             pc = match_close(body, m.end() - 1)
@@ -932,11 +979,9 @@ class Translator:
             elif c in ')]}':
                 depth -= 1
                 if depth < 0:
-                    # the call sits inside an enclosing parenthesis: if (f(x)) ... -- walk on, the
-                    # statement still ends at the next ';' at depth 0 of the *enclosing* context
+                    # the call sits inside an enclosing parenthesis of an expression statement / initialiser
+                    # (control headers were hoisted or refused before): the statement ends at the next ';'
                     depth = 0
-                    # control header: refuse
-                    raise ExtractError('may-throw call inside a parenthesised context (condition?)')
             elif c == ';' and depth == 0:
                 return j
             j += 1
